@@ -459,6 +459,10 @@ public:
     static_assert(std::is_pointer_v<T>, "Operator * only allowed on pointers");
     auto ret_ptr_const =
       reinterpret_cast<const T_OpDerefRet*>(impl().get_raw_value());
+    // A reference to, or the address of a member of, a null pointee is a small
+    // non-null address outside the sandbox
+    detail::dynamic_check(ret_ptr_const != nullptr,
+                          "Dereferencing a null tainted pointer");
     // Safe - If T_OpDerefRet is not a const ptr, this is trivially safe
     //        If T_OpDerefRet is a const ptr, then the const is captured
     //        inside the wrapper
@@ -474,7 +478,11 @@ public:
   {
     static_assert(std::is_pointer_v<T>,
                   "Operator -> only supported for pointer types");
-    return reinterpret_cast<const T_OpDerefRet*>(impl().get_raw_value());
+    auto ret_ptr = reinterpret_cast<const T_OpDerefRet*>(impl().get_raw_value());
+    // See operator*
+    detail::dynamic_check(ret_ptr != nullptr,
+                          "Dereferencing a null tainted pointer");
+    return ret_ptr;
   }
 
   inline T_OpDerefRet* operator->()
